@@ -67,9 +67,8 @@ Print Assumptions C20_weight_entries.
    group is its own bookings (collapsed members, if any) plus the weights of its children,
    and it is the sum of everything booked in its subtree.  [nweight] reads a weight map by
    summing the date's entries; on maps with ascending dates that is the cell the renderer
-   looks up (C20_weight_cell).  partial: that Report.Add / PropagateWeights keep the dates
-   ascending is proved for the map operations (wm_add_asc, wm_plus_asc) but not threaded
-   through the tree. *)
+   looks up (C20_weight_cell); Report.Add / PropagateWeights keep the dates ascending on
+   every node of the report (C20_report_dates_ascending). *)
 Theorem C20_group_sum : forall s lf w ch d,
   tdefined (WNode s lf w ch) ->
   nweight (propagate (WNode s lf w ch)) d == wsum w d + qsum (map (fun c => nweight (propagate c) d) ch) /\
@@ -81,6 +80,11 @@ Theorem C20_weight_cell : forall m d, wm_asc m ->
   wsum m d == match wm_get m d with Some w => oq w | None => 0 end.
 Proof. exact wsum_get. Qed.
 Print Assumptions C20_weight_cell.
+
+Theorem C20_report_dates_ascending : forall es p x,
+  wn_find p (propagate (report_of es)) = Some x -> wm_asc (wn_weights x).
+Proof. exact report_cells_asc. Qed.
+Print Assumptions C20_report_dates_ascending.
 
 (* the rows of the top level carry every entry of the date *)
 Theorem C20_top_level_carries_all : forall es d,
@@ -125,7 +129,9 @@ Print Assumptions C20_mapped_entries.
    renderer reads at p in the report WITH the mapping is the sum of the weights of the entries
    of the run WITHOUT the mapping that map_path sends to p or below it, on d.
    [defined_entries]: no weight is a division by a zero total (Go: Inf/NaN); as in C20_group_sum,
-   sums with undefined weights are not numbers. *)
+   sums with undefined weights are not numbers.  (Per date -- only the entries of d defined -- the
+   local form is Proofs/PortfolioPerDate.propagate_at / own_at_find_at, which the table theorem
+   C20_mapping_law_table uses; the sum over the whole subtree is proved under defined_entries.) *)
 Theorem C20_mapping_law : forall cfg ds es0 es p d,
   weights_entries (pf_unmapped cfg) ds = COk es0 -> weights_entries cfg ds = COk es ->
   defined_entries es0 ->
@@ -148,36 +154,32 @@ Print Assumptions C20_mapping_law_local.
 (* The mapping law on the tables: the executable statement the check evaluates on the binary's two text
    tables (Spec/PortfolioSpec.mapping_law_b: every leaf row of the table WITHOUT -m has a row of the
    table WITH -m to be folded into; every row WITH -m = the leaf rows WITHOUT -m that map_path sends
-   to the row's path + the row's member rows, paths and members read off the indentation) holds, with
-   tolerance 0, of the rows of the two tables of the model ([srows]: depth = indent / 2) -- for every
-   configuration (universe, mapping, filters, window, sort order) and journal, provided
+   to the row's path + the row's member rows, in every column in which these are finite numbers; paths
+   and members read off the indentation) holds, with tolerance 0, of the rows of the two tables of the
+   model ([srows]: depth = indent / 2) -- for every configuration (universe, mapping, filters, window,
+   sort order) and journal, zero totals included (an undefined weight makes the cell of its leaf row
+   undefined, and the statement skips the column), provided
      [prefix_free es0]  in the run without -m no commodity's path is a proper prefix of another's
                         (a class is not named like a classified commodity's path): otherwise that
                         commodity is no leaf row of the table without -m and mapping_law_b is FALSE
                         of the correct tables, see C20_w4_needs_prefix_free;
-     paths non-empty    the mapping hides no commodity altogether (level 0): otherwise
-                        leaves_placed_b is false, the commodity has no row;
-     [defined_entries]  no weight is a division by a zero total.
-   Full statement, NOT proved (C20_mapping_law_table): the same without [defined_entries es0] --
-   mapping_law_b skips the columns in which the row, a member or a leaf row is not a finite number,
-   so the law should hold of the remaining columns.  That needs the sums of this file (wm_add_sum ...
-   propagate_spec, report_total) per date, under "the entries OF THAT DATE are defined", and: an
-   undefined entry makes the cell of its leaf row undefined. *)
-Theorem C20_mapping_law_table_partial : forall cfg ds es0 es t0 t,
+     paths non-empty    the mapping hides no commodity altogether (level 0): otherwise the commodity
+                        has no row to be folded into (leaves_placed_b). *)
+Theorem C20_mapping_law_table : forall cfg ds es0 es t0 t,
   weights_entries (pf_unmapped cfg) ds = COk es0 -> weights_entries cfg ds = COk es ->
-  defined_entries es0 -> prefix_free es0 -> Forall (fun e => entry_path e <> []) es ->
+  prefix_free es0 -> Forall (fun e => entry_path e <> []) es ->
   weights_table (pf_unmapped cfg) ds = COk t0 -> weights_table cfg ds = COk t ->
   mapping_law_b 0 (length (fst t)) (pc_mapping cfg) (srows t0) (srows t) = true.
 Proof. exact mapping_law_table. Qed.
-Print Assumptions C20_mapping_law_table_partial.
+Print Assumptions C20_mapping_law_table.
 
 (* the same for entries: any two sort orders, any mapping under which map_entries succeeds *)
-Theorem C20_mapping_law_rows_partial : forall m es0 es a0 a,
+Theorem C20_mapping_law_rows : forall m es0 es a0 a,
   map_entries m es0 = Some es ->
-  defined_entries es0 -> prefix_free es0 -> Forall (fun e => entry_path e <> []) es ->
+  prefix_free es0 -> Forall (fun e => entry_path e <> []) es ->
   mapping_law_b 0 (length (report_dates es)) m (srows (render_weights a0 es0)) (srows (render_weights a es)) = true.
 Proof. exact table_law. Qed.
-Print Assumptions C20_mapping_law_rows_partial.
+Print Assumptions C20_mapping_law_rows.
 
 (* where the command with -m runs, the command without -m runs *)
 Theorem C20_unmapped_runs : forall cfg ds es,
@@ -288,15 +290,15 @@ Proof.
   split; [exact H3|]. split; [exact H4|]. split; [exact H5|]. split; [exact H6|exact H7].
 Qed.
 
-(* the hypotheses of C20_mapping_law_table_partial hold of W3, and its conclusion is what vm_compute finds *)
+(* the hypotheses of C20_mapping_law_table hold of W3, and its conclusion is what vm_compute finds *)
 Example C20_w3_table_law :
   defined_entries w3_entries0 /\ prefix_free w3_entries0 /\ Forall (fun e => entry_path e <> []) w3_entries /\
   mapping_law_b 0 (length (fst w3_table)) (pc_mapping w3_cfg) (srows w3_table0) (srows w3_table) = true.
 Proof.
   destruct w3_runs as [H1 [H2 [H3 H4]]].
   split; [exact w3_defined|]. split; [exact w3_prefix_free|]. split; [exact w3_nonempty|].
-  exact (C20_mapping_law_table_partial w3_cfg w3_journal w3_entries0 w3_entries w3_table0 w3_table
-           H2 H1 w3_defined w3_prefix_free w3_nonempty H4 H3).
+  exact (C20_mapping_law_table w3_cfg w3_journal w3_entries0 w3_entries w3_table0 w3_table
+           H2 H1 w3_prefix_free w3_nonempty H4 H3).
 Qed.
 
 (* W4: universe Equity (AAPL), Equity:AAPL (NESN), Cash (CHF), `-m 1,^Cash`.  Every hypothesis of the table
